@@ -3,7 +3,7 @@
 patch applied; store the outcome in seeded/<id>/meta.json ("latest") and print a summary line per seed."""
 import json, subprocess, sys, glob, os, time
 pat = sys.argv[1] if len(sys.argv) > 1 else ""
-for d in sorted(glob.glob("/verif/seeded/*%s*" % pat)):
+for d in sorted(x for x in glob.glob("/verif/seeded/*%s*" % pat) if os.path.isdir(x)):
     name = os.path.basename(d)
     prop = name.split("-")[0]
     patch = d + "/patch-rebased.diff" if os.path.exists(d + "/patch-rebased.diff") else d + "/patch.diff"
